@@ -231,6 +231,22 @@ func oracleC06(c *oracleCtx) {
 		}
 	}
 
+	// directed: literals spanning lines whose lines end in white space other than a space, or consist of it — the
+	// output clean-up removes trailing spaces only (that much is the known class); tabs, CR and indentation-like
+	// runs inside a literal belong to the literal
+	if c.tier != "replay" {
+		for _, src := range []string{
+			"let h = `name\tqty\t\n-----`;\n",
+			"function table() {\n  let header = `name\tqty\t\n-----`;\n\n  return header;\n}\nlet out = table();\n",
+			"let s = `a\t\n\tb\t\n\t\t`;\n",
+			"if (a) {\n  x = `one\t\n\t\ntwo`;\n}\n",
+			"let q = \"a\t\\\nb\";\n",
+			"f(`\t\n`, `x\r\ny`);\n",
+		} {
+			c.count(src)
+			c06Check(c, src, []string{"09", "2020", "20", "-"}, true)
+		}
+	}
 	n := c.n(1200, 40000)
 	for i := 0; i < n && !c.expired(); i++ {
 		tree := jsgen.GenProgram(c.r, jsgen.GenOptions{MaxDepth: 1 + c.r.Intn(4), MaxStmts: 1 + c.r.Intn(6), Executable: c.r.Intn(3) == 0})
